@@ -267,10 +267,12 @@ def known_findings(prop):
 
 
 def write_evidence(prop, tier, seed, coverage, assumptions, wall, violations, level="proof"):
-    os.makedirs(os.path.join(ROOT, "evidence"), exist_ok=True)
+    # evidence/ holds runs against /repo only; trials on scratch trees (VERIF_REPO) write elsewhere
+    evdir = os.path.join(ROOT, "evidence") if REPO == "/repo" else os.path.join(RUN, "evidence_" + hashlib.sha1(REPO.encode()).hexdigest()[:8])
+    os.makedirs(evdir, exist_ok=True)
     ev = dict(property_id=prop, tier=tier, seed=int(seed), level=level, coverage=coverage,
               assumptions=assumptions, wall_s=round(wall, 2), violations=int(violations))
-    with open(os.path.join(ROOT, "evidence", prop + ".json"), "w") as f:
+    with open(os.path.join(evdir, prop + ".json"), "w") as f:
         json.dump(ev, f, indent=1, sort_keys=True)
 
 
